@@ -79,7 +79,7 @@ package main
 //@ func RedactMongoLog
 //@   safety C07
 //@   props C01 C04 C12 C13 C15 C06 C02 C03 C05 C14 C19
-//@   assigns GoMaps, Arr:Val, Mem:OMap, decUseNumber, decFailed
+//@   assigns GoMaps, Arr:Val, Mem:OMap, decUseNumber, decFailed, decPos
 //@   allocs Arr:Int, Arr:Slice, Mem:Str, Arr:Str
 //@   local c := mkCfg(redactedString, redactNumbers, redactBooleans, shouldEncrypt && encryptionKey != nil, mkbytes(elems(encryptionKey), off(encryptionKey), len(encryptionKey)), redactedFieldsRegexp, emailRegex, redactNamespaces)
 //@   snapshot_after UnmarshalOrdered#1 H0:[Int]OMap := comp("Mem:OMap")
@@ -140,7 +140,7 @@ package main
 //@ func processMongoLogStream
 //@   props C08 C06 C02 C01 C03 C04 C05 C10 C12 C13 C14 C15 C19
 //@   safety C07
-//@   assigns GoMaps, wfailOn, scanErr, outN, stderrN, scannedN, decUseNumber, decFailed, Arr:Val, Mem:OMap, unflushed, bufDirty, scanDone
+//@   assigns GoMaps, wfailOn, scanErr, outN, stderrN, scannedN, decUseNumber, decFailed, decPos, Arr:Val, Mem:OMap, unflushed, bufDirty, scanDone
 //@   allocs Arr:Str
 //@   requires: !wfailOn[outWriter] && !scanErr
 //@   loop 1 invariant io-ok {C08}: !wfailOn[outWriter] && !scanErr
@@ -163,7 +163,7 @@ package main
 //@ func ProcessMongoLogFile
 //@   props C08
 //@   safety C07
-//@   assigns GoMaps, wfailOn, scanErr, openFail, outN, stderrN, scannedN, envOps, decUseNumber, decFailed, Arr:Val, Mem:OMap, unflushed, bufDirty, scanDone
+//@   assigns GoMaps, wfailOn, scanErr, openFail, outN, stderrN, scannedN, envOps, decUseNumber, decFailed, decPos, Arr:Val, Mem:OMap, unflushed, bufDirty, scanDone
 //@   allocs Arr:Str
 //@   requires: !wfailOn[outWriter] && !scanErr && !openFail && fileReader != nil
 //@   requires key-in-use-is-the-persisted-one {C11}: implies(shouldEncrypt && encryptionKey != nil, havePersisted && persistedKey == mkbytes(elems(encryptionKey), off(encryptionKey), len(encryptionKey)))
@@ -177,7 +177,7 @@ package main
 //@ func ProcessMongoLogFileFromReader
 //@   props C08
 //@   safety C07
-//@   assigns GoMaps, wfailOn, scanErr, outN, stderrN, scannedN, envOps, decUseNumber, decFailed, Arr:Val, Mem:OMap, unflushed, bufDirty, scanDone
+//@   assigns GoMaps, wfailOn, scanErr, outN, stderrN, scannedN, envOps, decUseNumber, decFailed, decPos, Arr:Val, Mem:OMap, unflushed, bufDirty, scanDone
 //@   allocs Arr:Str
 //@   requires: !wfailOn[outWriter] && !scanErr
 //@   requires key-in-use-is-the-persisted-one {C11}: implies(shouldEncrypt && encryptionKey != nil, havePersisted && persistedKey == mkbytes(elems(encryptionKey), off(encryptionKey), len(encryptionKey)))
@@ -394,6 +394,7 @@ package main
 //@   requires: tableTop <= heapTop
 //@   requires: isTable(AggregationOperators) && isTable(CoreOperators) && isTable(OperatorMapDefs) && isTable(geoJSON) && isTable(SearchOperators) && isTable(SearchAggregationOperators)
 //@   requires: emailRegex != nil
+//@   requires: io.ErrUnexpectedEOF != nil
 //@   requires: len(TopLevelSearchOperators) == 4
 
 // ---------------------------------------------------------------------------------------------
@@ -500,7 +501,7 @@ package main
 //@ func parseValue
 //@   safety C07
 //@   props C06 C08 C03 C04
-//@   assigns decFailed
+//@   assigns decFailed, decPos
 //@   allocs Mem:OMap, Arr:Val
 //@   requires decoder: dec != nil
 //@   assume_after (*encoding/json.Decoder).Token#2 A-JSON-key-token-is-a-string: result1 != nil || isStr(result0)
@@ -508,6 +509,11 @@ package main
 //@   loop 2 invariant frame: unchangedBelow("Mem:OMap") && unchangedBelow("Arr:Val") && (base(arr) == 0 || base(arr) > old(heapTop))
 //@   ensures fresh-map: implies(isMap(result0), mapOf(result0) > old(heapTop) && mapOf(result0) <= heapTop && !isTable(mapOf(result0)))
 //@   requires no-error-so-far: !decFailed[dec]
+//@   local p0 := decPos[dec]
+//@   loop 1 invariant entries-follow-the-tokens {C03,C04,C06}: ObjToks(dec, p0 + 1, decPos[dec], om(m)) && decPos == store(old(decPos), dec, decPos[dec])
+//@   loop 2 invariant elements-follow-the-tokens {C03,C04,C06}: ArrToks(dec, p0 + 1, decPos[dec], velems(arr), off(arr), len(arr)) && decPos == store(old(decPos), dec, decPos[dec])
+//@   defines the-tree-is-built-token-by-token {C03,C04,C06}: Parsed(dec, p0, decPos[dec], result0) := implies(result1 == nil, ParsedDef(dec, p0, decPos[dec], result0, om(mapOf(result0)), velems(arrOf(result0))))
+//@   ensures only-this-decoder-advances: decPos == store(old(decPos), dec, decPos[dec])
 //@   snapshot_after (*encoding/json.Decoder).Token#1 first:Val := result0
 //@   ensures a-document-for-an-opening-brace {C03,C04,C06,C07}: implies(result1 == nil && isOther(first) && xvOf(first) == 123, isMap(result0))
 //@   ensures an-array-for-an-opening-bracket {C03,C04,C06,C07}: implies(result1 == nil && isOther(first) && xvOf(first) == 91, isArr(result0))
@@ -520,7 +526,7 @@ package main
 //@ func UnmarshalOrdered
 //@   safety C07
 //@   props C06 C08 C03
-//@   assigns decUseNumber, decFailed
+//@   assigns decUseNumber, decFailed, decPos
 //@   allocs Mem:OMap, Arr:Val, Arr:Int
 //@   ensures object-or-error: (result0 == nil) == (result1 != nil)
 //@   ensures fresh-map: implies(result1 == nil, result0 > old(heapTop) && result0 <= heapTop && !isTable(result0))
